@@ -139,7 +139,7 @@ Section Steps.
     - destruct (span has_colon r1) as [rs r2] eqn:E.
       pose proof (span_shorter _ _ _ _ E) as Hle.
       destruct (parse_ranges (map tsp (first :: rs))) as [b|err]; [|discriminate]. simpl bind.
-      destruct (expand r2 (Some (bounds_size b)) [] 0) as [vals consumed|err] eqn:Ee.
+      destruct (expand S r2 (Some (bounds_size b)) [] 0) as [vals consumed|err] eqn:Ee.
       + intros H. apply bind_ok in H. destruct H as [[k rest'] [Hk H]]. injection H as _ <-.
         apply fill_params_shorter in Hk.
         assert (Hr3 : (List.length (if (consumed =? 0)%nat then [] else skipn consumed r2) <= List.length r2)%nat).
